@@ -19,6 +19,7 @@ type Scenario struct {
 	Kind   storeKind
 	FailAt int
 	Flag   bool
+	Expect []string // C06: the portions as the generator wrote them (Coq terms: Some (num, den) / None), clause by clause
 }
 
 func scenarioFromGen(g *Gen, prog *GProgram, layout int, r *Rand) Scenario {
@@ -96,6 +97,13 @@ func scenarioFromInfo(ci *CaseInfo) Scenario {
 			s.Meta[a][k] = v
 		}
 	}
+	if ps, ok := ci.Extra["portions"].([]any); ok {
+		for _, x := range ps {
+			if t, ok := x.(string); ok {
+				s.Expect = append(s.Expect, t)
+			}
+		}
+	}
 	return s
 }
 
@@ -152,7 +160,15 @@ func (c *Ctx) addScenario(s Scenario, kind string) *CaseInfo {
 		// how many postings the implementation has produced after each statement (prefix executions)
 		term = fmt.Sprintf("(mk_c02case %s %s)", term, coqIntList(s.prefixPostingCounts(o)))
 	}
+	if c.prop == "C06" {
+		// the portions as written by the generator: the tree the interpreter works on comes from the
+		// implementation's own parser, so "the exact portion" is judged against the text, not against it
+		term = fmt.Sprintf("(mk_c06case %s %s)", term, coqList(s.Expect))
+	}
 	ci := s.info(kind)
+	if len(s.Expect) > 0 {
+		ci.Extra = map[string]any{"portions": s.Expect}
+	}
 	ci.Coq = term
 	ci.Class = o.Class
 	ci.Observed = shortObserved(o)
@@ -283,6 +299,9 @@ func interpCases(c *Ctx, n int, tweak func(cfg *GenCfg, i int), post func(s *Sce
 		case "capVarReuse":
 			prog = g.capVarReuseProgram(cfg.OneSend)
 			c.count("directed:capVarReuse")
+		case "nestedKept":
+			prog = g.nestedKeptProgram()
+			c.count("directed:nestedKept")
 		case "originOtherAsset":
 			prog = g.originOtherAssetProgram(cfg.OneSend)
 			c.count("directed:originOtherAsset")
@@ -355,6 +374,7 @@ func init() {
 			cfg.Origins = i%5 == 0
 			cfg.Calls = false
 			cfg.WorldProb = 80
+			cfg.WorldSub = i%4 == 1
 			cfg.MaxStmts = 5
 			switch i % 8 {
 			case 3:
@@ -421,6 +441,12 @@ func init() {
 			case 5:
 				if i%20 == 5 {
 					cfg.Directed = "originOtherAsset"
+				} else {
+					cfg.Directed = "varReuseSends"
+				}
+			case 2:
+				if i%20 == 2 {
+					cfg.Directed = "nestedKept"
 				}
 			}
 		}, nil)
@@ -440,6 +466,7 @@ func init() {
 			cfg.SmallPool = i%3 == 0
 			cfg.SelfLead = i%5 == 3
 			cfg.FreePrefix = i%5 == 1
+			cfg.WorldSub = i%4 == 2
 			switch i % 20 {
 			case 7:
 				cfg.Directed = "capVarReuse"
@@ -464,13 +491,16 @@ func init() {
 			if i%10 == 7 {
 				cfg.Directed = "varReuseCaps"
 			}
+			if i%20 == 13 {
+				cfg.Directed = "nestedKept"
+			}
 			cfg.FreePrefix = i%5 == 2
 		}, nil)
 	}
 	registry["C06"] = func(c *Ctx) {
-		c.group("splits", "icase", "judge_C06")
+		c.group("splits", "c06case", "judge_C06w")
 		if c.replay != nil {
-			c.addScenario(scenarioFromInfo(c.replay), "icase")
+			c.addScenario(scenarioFromInfo(c.replay), "c06case")
 			return
 		}
 		root := NewRand(c.seed)
@@ -496,7 +526,25 @@ func init() {
 			}
 			prog := c06Program(g, r, amt, i%4 == 3)
 			s := scenarioFromGen(g, prog, 0, r)
-			c.addScenario(s, "icase")
+			st := prog.Stmts[len(prog.Stmts)-1]
+			var written []*GAllot
+			if st.Dst != nil && st.Dst.Kind == DstAllot {
+				for _, it := range st.Dst.Items {
+					written = append(written, it.Allot)
+				}
+			} else if st.Src != nil && st.Src.Kind == SrcAllot {
+				for _, it := range st.Src.Items {
+					written = append(written, it.Allot)
+				}
+			}
+			for _, a := range written {
+				if a.Kind == AlRatio {
+					s.Expect = append(s.Expect, fmt.Sprintf("(Some (%s, %s))", coqZ(a.E.Num), coqZ(a.E.Den)))
+				} else {
+					s.Expect = append(s.Expect, "None")
+				}
+			}
+			c.addScenario(s, "c06case")
 		}
 		if c.tier == "thorough" {
 			// exhaustive small scope: portion vectors with denominators <= 6 and <= 3 clauses x totals 0..40
@@ -520,7 +568,7 @@ func init() {
 									Src: &GSource{Kind: SrcAccount, E: &GExpr{Kind: XAccount, S: "world"}}, Dst: dst}}
 								s := scenarioFromGen(g, g.prog, 0, r)
 								s.Bal = numscript.Balances{}
-								c.addScenario(s, "icase")
+								c.addScenario(s, "c06case")
 								count++
 							}
 							return
